@@ -1,7 +1,7 @@
 #!/venv/bin/python
 """Run checks against seeded property-breaking changes.
 
-usage: tools/seedtest.py [--all-checks] [--tier quick] [seed-id ...]
+usage: tools/seedtest.py [--all-checks] [--tier quick] [--out FILE] [seed-id ...]      (VERIF_SEED is passed on)
 
 For each /verif/seeded/<id>/ (patch.diff, demo.py, meta.json): make a scratch worktree of /repo's
 HEAD outside /repo and /verif, apply the patch there, run the check of the property the change
@@ -24,11 +24,14 @@ def main():
     tier = "quick"
     if "--tier" in args:
         tier = args[args.index("--tier") + 1]
-    ids = [a for a in args if not a.startswith("--") and a != tier]
+    outp = None
+    if "--out" in args:
+        outp = args[args.index("--out") + 1]
+    ids = [a for a in args if not a.startswith("--") and a != tier and a != outp]
     sdir = os.path.join(VERIF, "seeded")
     if not ids:
         ids = sorted(d for d in os.listdir(sdir) if os.path.isdir(os.path.join(sdir, d)))
-    resp = os.path.join(sdir, "RESULTS.json")
+    resp = outp or os.path.join(sdir, "RESULTS.json")
     results = json.load(open(resp)) if os.path.exists(resp) else {}
     for sid in ids:
         d = os.path.join(sdir, sid)
